@@ -280,7 +280,11 @@ def main(argv=None):
             for rec in bnd:
                 if rec.get('error'):
                     undecided.append('bounded stand-in %s: %s' % (rec['mode'], rec['error']))
+                other = 0
                 for n, hit in enumerate(rec['found']):
+                    if prop not in bounded.hit_props(rec['mode'], hit.get('detail', ''), bounded.served_by(rec['mode'])):
+                        other += 1       # the failed oracle states another property (this mode runs several over the same documents)
+                        continue
                     known = [k for k in my_kf if hit.get('input') in k.get('bounded_inputs', [])]
                     if known:
                         line = 'KNOWN-FINDING: property=%s %s — %s [input: %s]' % (prop, known[0].get('id', ''), known[0].get('what', ''), hit.get('input'))
@@ -292,6 +296,7 @@ def main(argv=None):
                         json.dump({'property': prop, 'kind': 'bounded stand-in: concrete failing input on the real crate', 'mode': rec['mode'],
                                    'stands_in_for': rec['stands_in_for'], 'failing_input': hit, 'reproduce': rec.get('reproduce')}, fh, indent=1)
                     vio_out.append('VIOLATION property=%s replay=%s bounded=%s input=%s' % (prop, rp, rec['mode'], json.dumps(hit.get('input', ''))[:300]))
+                rec['hits_for_other_properties'] = other
 
     meta = PROPS.get(prop, {})
     assumptions = list(meta.get('unverified', [])) + [
